@@ -531,7 +531,12 @@ func (s *Storer) initDataSet() *dataSet {
 				}
 			} else {
 				rf := ParseRdbFile(info.Name(), false)
-				if rf.IsValid() {
+				// the name announces the size : a file that holds another number of bytes (power loss
+				// after the rename reached the disk before the data, a copy cut short) is not a
+				// complete snapshot and is not offered
+				if rf.IsValid() && info.Size() != rf.size {
+					s.logger.Errorf("wrong rdb file : name(%s), size(%d)", info.Name(), info.Size())
+				} else if rf.IsValid() {
 					rdb = &dataSetRdb{
 						left:    rf.offset,
 						rdbSize: rf.size,
